@@ -87,6 +87,10 @@ def wsum(conds, vals):
     return tot
 
 
+LAYOUTS = {"staggered": "overlapping scales lo0<lo1<hi0<hi1", "nested": "nested scales lo0<lo1<hi1<hi0", "disjoint": "disjoint scales hi0<lo1",
+           "adjacent": "adjacent scales hi0==lo1", "same_lower": "scales sharing the lower limit"}
+
+
 class TreeCount(Harness):
     """L1: AngularTree.count post-processing over the specification tree"""
 
@@ -94,13 +98,15 @@ class TreeCount(Harness):
     modules = TREE_MODS
     xval = False
 
-    def __init__(self, n1, n2, S, res=None, wrong=None, symmetric_limits=False):
-        self.n1, self.n2, self.S, self.res, self.wrong = n1, n2, S, res, wrong
+    def __init__(self, n1, n2, S, res=None, wrong=None, staggered=False):  # staggered: False or a layout name
+        self.n1, self.n2, self.S, self.res, self.wrong, self.staggered = n1, n2, S, res, wrong, staggered
+        self.layout = "staggered" if staggered is True else staggered
         self.name = "treecount.%dx%d.S%d.%s" % (n1, n2, S, "unweighted-sep" if res is None else "rweight.res%d" % res) + (
-            ".twin-" + wrong if wrong else "")
-        self.bounds = ("points=%dx%d scales=%d (limits symbolic, may overlap) %s; pair chords, point weights symbolic; "
+            "." + self.layout if staggered else "") + (".twin-" + wrong if wrong else "")
+        self.bounds = ("points=%dx%d scales=%d (limits symbolic, %s) %s; pair chords, point weights symbolic; "
                        "weights present/absent per tree chosen by the engine") % (
-            n1, n2, S, "no separation weighting" if res is None else "separation weighting alpha symbolic, resolution=%d" % res)
+            n1, n2, S, LAYOUTS[self.layout] if staggered else "may overlap in any way",
+            "no separation weighting" if res is None else "separation weighting alpha symbolic, resolution=%d" % res)
         self.assumptions = ("0 < ang_min < ang_max <= pi", "pair separations given as chord lengths in [0,2] "
                             "(angle<->chord strictly increasing: C14)")
         self.must_fail = wrong is not None
@@ -114,6 +120,10 @@ class TreeCount(Harness):
         PI = uf.pi()
         for s in range(self.S):
             eng.assume((d["amin"][s] > 0) & (d["amin"][s] < d["amax"][s]) & (d["amax"][s] <= PI))
+        for s in range(self.S - 1) if self.staggered else ():
+            a0, b0, a1, b1 = d["amin"][s], d["amax"][s], d["amin"][s + 1], d["amax"][s + 1]
+            eng.assume({"staggered": (a0 < a1) & (a1 < b0) & (b0 < b1), "nested": (a0 < a1) & (b1 < b0), "disjoint": b0 < a1,
+                        "adjacent": b0 == a1, "same_lower": (a0 == a1) & (b0 < b1)}[self.layout])
         if self.res is not None:
             d["alpha"] = sym("alpha")
         d["has_w1"] = eng.choose(2, "has_w1")
@@ -164,7 +174,7 @@ class TreeCount(Harness):
                     lmin = v
                 if v > lmax:
                     lmax = v
-            grid = [lmin + (lmax - lmin) * (k / self.res) for k in range(self.res + 1)]
+            grid = [lmin + (lmax - lmin) * k / self.res for k in range(self.res + 1)]  # exact rationals (k/res as a float is not)
             L = X.sort_unique(grid + logs)
             E = [X.exp10(v) for v in L]
             mids = [X.exp10((L[m] + L[m + 1]) / 2.0) for m in range(len(L) - 1)]
@@ -908,7 +918,7 @@ def harnesses(tier):
         hs += [MaxAngle(2, 2, u) for u in UNITS] + [MaxAngle(3, 1, "kpc"), Linkage(2), Linkage(3), Linkage(2, N=3)]
         hs += [ProcessPair(3, 2, u, bb) for u in ("kpc", "Mpc/h", "deg") for bb in (False, True)] + [Wiring(), EndToEndSample("equator_wrap"), EndToEndSample("pole")]
         hs += [TreeCount(2, 2, 1), TreeCount(2, 1, 2), TreeCount(1, 1, 3), TreeCount(1, 2, 1, res=1), TreeCount(1, 1, 1, res=2),
-               TreeCount(1, 1, 2, res=1), TreeCount(1, 1, 1, res=7), EmptyTree()]
+               *[TreeCount(1, 1, 2, res=r, staggered=l) for l in LAYOUTS for r in (1, 2)], TreeCount(1, 1, 1, res=7), EmptyTree()]
         hs += [PairIteration(4, True), PairIteration(4, False), PairIteration(5, True)]
         hs += [Accumulate(3, 2, 2, True), Accumulate(3, 2, 2, False)]
     hs += [TreeCount(1, 1, 1, wrong="closed"), TreeCount(1, 1, 1, wrong="reach"), PairIteration(3, True, wrong="ordered"),
